@@ -61,12 +61,13 @@ def _write_all(fp, payload, how):
         pos += k
 
 
-def download(n, blks, crc, how, lose=(), final_loss=False):
+def download(n, blks, crc, how, lose=(), final_loss=False, lenient=False):
     """blks: block sizes the server asks for in successive sub-blocks; lose: indices of segment frames
     dropped (counted over everything the client sends between initiate and end)"""
     E = _exc()
     # crc: 1 both sides, 0 the server does not support it, 2 the client does not ask for it (request_crc_support=False)
     srv = BlockDownloadServer(blks, crc=bool(crc))
+    srv.strict_size = not lenient       # lenient: a server that does not compare the received length with the declared size
     srv.sc_capability = (crc == 3)      # 3: like 2, and the server's sc bit states its capability all the same
     rig = LossyRig(srv, lose)
     idx = sx.fresh_int("idx", 0, 0xFFFF)
@@ -255,6 +256,8 @@ def jobs(tier):
     # segments spread over more than one sub-block, the second loss hitting the sub-block that begins with their tail
     for blks in ([7, 3, 3, 7], [7, 2, 5, 7], [6, 4, 2, 7]):
         for lose in ([2, 10], [2, 11], [2, 12], [1, 10], [3, 11], [2, 9], [4, 9]):
+            out.append(dict(func="download", params=dict(n=150, blks=blks, crc=0, how="buffered", lose=lose, final_loss=True,
+                                                         lenient=True), weight=150))
             for crc in (0, 2):        # (with a CRC the comparison over 150 symbolic bytes does not finish; without one
                                       # nothing but the client's bookkeeping protects the content anyway)
                 out.append(dict(func="download", params=dict(n=150, blks=blks, crc=crc, how="buffered", lose=lose,
